@@ -796,7 +796,13 @@ impl Driver {
         }
         // 2. no gate stays closed; run must return (escalating waits; only "did not return" matters)
         self.ctx.free_all();
-        let returned = self.await_ev("Run_Return", -1, 0);
+        let returned = if self.hang {
+            // a step already failed to happen within 1 s + 4 s + 15 s: give run one more second only
+            std::thread::sleep(Duration::from_millis(WAITS_MS[0]));
+            self.ctx.has_event("Run_Return")
+        } else {
+            self.await_ev("Run_Return", -1, 0)
+        };
         let sig_to_return_ms = t_sig.elapsed().as_millis() as u64;
         let mut rebind = Value::Null;
         if returned {
@@ -1025,6 +1031,22 @@ pub fn race_scenarios(rt: &str) -> Vec<Cfg> {
     let mk = |id: &str, nw: usize, bind: &str, nc: usize, steps: Vec<Value>| Cfg {
         id: format!("race-{}-{}", rt, id), rt: rt.to_string(), nw, bind: bind.to_string(), nc, sigkind: "send".into(), steps, expect: Value::Null,
     };
+    // the traffic states that are in flight at the instant of the signal, deterministically, on both runtimes:
+    // handler running (close and keep-alive), response being written (client reads slowly), idle keep-alive,
+    // half-sent request, WebSocket open.  run must return; the process (and the tokio runtime) stays alive, so
+    // every answer to a request received before the signal must arrive complete afterwards.
+    for (i, bind) in ["127.0.0.1", "::"].iter().enumerate() {
+        v.push(mk(&format!("inflight-at-signal-{}", i), 8, bind, 7, vec![
+            json!(["connect", 1]), json!(["half", 1, "l"]), json!(["rest", 1, "close"]), json!(["await", 1, "H_Read"]),
+            json!(["connect", 2]), json!(["half", 2, "b"]), json!(["rest", 2, "close"]), json!(["await", 2, "H_Finish"]), json!(["recvpart", 2]),
+            json!(["connect", 3]), json!(["half", 3, "s"]), json!(["rest", 3, "keep"]), json!(["recv", 3]),
+            json!(["connect", 4]), json!(["half", 4, "l"]), json!(["rest", 4, "keep"]), json!(["await", 4, "H_Read"]),
+            json!(["connect", 5]), json!(["half", 5, "s"]),
+            json!(["connect", 6]), json!(["half", 6, "w"]), json!(["rest", 6, "ws"]), json!(["await", 6, "H_Read"]),
+            json!(["connect", 7]), json!(["half", 7, "b"]), json!(["rest", 7, "keep"]), json!(["await", 7, "H_Finish"]), json!(["recvpart", 7]),
+            json!(["sig"]), json!(["await", -1, "Run_Return"]), json!(["sleep", 60]),
+        ]));
+    }
     if rt == "threaded" {
         // flag set, a client connects (and is accepted, and dropped) before the wake-up connection is made
         v.push(mk("client-before-wake", 2, "0.0.0.0", 2, vec![
